@@ -94,7 +94,8 @@ int32_t qb_rb_close_helper(struct qb_ringbuffer_s * rb, int32_t unlink_it,
 
 qb_ringbuffer_t *qb_rb_open_2(const char *name, size_t size, uint32_t flags,
 			      size_t shared_user_data_size,
-			      struct qb_rb_notifier *notifier);
+			      struct qb_rb_notifier *notifier,
+			      mode_t create_mode);
 
 
 #ifndef HAVE_SEMUN
